@@ -111,6 +111,113 @@ theorem indexAssign_ok (m : Val → Val → Bool) (i : Nat) (k : Val) (v : β) (
     simp only [List.concat_eq_append] at *
     exact indexAssign_inner m k v pre post' e l habs
 
+/-! ### the checked index assignment (fix 6a9dccd) never panics -/
+
+theorem findIdx_none (m : Val → Val → Bool) (k : Val) (es : List (Val × β)) (h : findIdx m k es = none) :
+    ∀ e ∈ es, m k e.1 = false := by
+  induction es with
+  | nil => intro e he; cases he
+  | cons e0 es ih =>
+    obtain ⟨kk, vv⟩ := e0
+    simp only [findIdx] at h
+    by_cases hk : m k kk = true
+    · simp [hk] at h
+    · have hk' : m k kk = false := by simpa using hk
+      simp only [hk', Bool.false_eq_true, if_false, Option.map_eq_none_iff] at h
+      intro e he
+      rcases List.mem_cons.mp he with rfl | he'
+      · exact hk'
+      · exact ih h e he'
+
+theorem findIdx_some (m : Val → Val → Bool) (k : Val) (es : List (Val × β)) (j : Nat)
+    (h : findIdx m k es = some j) : ∃ hj : j < es.length, m k (es[j]).1 = true := by
+  induction es generalizing j with
+  | nil => simp [findIdx] at h
+  | cons e0 es ih =>
+    obtain ⟨kk, vv⟩ := e0
+    simp only [findIdx] at h
+    by_cases hk : m k kk = true
+    · simp only [hk, if_true, Option.some.injEq] at h
+      subst h
+      exact ⟨by simp, by simpa using hk⟩
+    · have hk' : m k kk = false := by simpa using hk
+      simp only [hk', Bool.false_eq_true, if_false, Option.map_eq_some_iff] at h
+      obtain ⟨j', hj', rfl⟩ := h
+      obtain ⟨hlt, hm⟩ := ih j' hj'
+      exact ⟨by simp; omega, by simpa using hm⟩
+
+/-- with pairwise different keys, a key that matches entry `i` matches no other entry -/
+theorem distinct_other_no_match {m : Val → Val → Bool} (hm : KeyPER m) (k : Val) (ks : List Val) (i : Nat)
+    (hi : i < ks.length) (hd : Distinct m ks) (hk : m k ks[i] = true) :
+    ∀ x ∈ ks.eraseIdx i, m k x = false := by
+  have hsplit : ks = ks.take i ++ ks[i] :: ks.drop (i + 1) := by
+    rw [List.getElem_cons_drop]; simp
+  have herase : ks.eraseIdx i = ks.take i ++ ks.drop (i + 1) := List.eraseIdx_eq_take_drop_succ ks i
+  rw [herase]
+  unfold Distinct at hd
+  rw [hsplit, List.pairwise_append] at hd
+  obtain ⟨_, hrest, hcross⟩ := hd
+  have hrest' := List.pairwise_cons.mp hrest
+  intro x hx
+  cases hx2 : m k x with
+  | false => rfl
+  | true =>
+    have hik : m ks[i] k = true := by rw [hm.symm]; exact hk
+    rcases List.mem_append.mp hx with h | h
+    · have h1 : m x k = true := by rw [hm.symm]; exact hx2
+      have := hm.trans x k ks[i] h1 hk
+      rw [hcross x h ks[i] List.mem_cons_self] at this
+      exact absurd this (by simp)
+    · have := hm.trans ks[i] k x hik hx2
+      rw [hrest'.1 x h] at this
+      exact absurd this (by simp)
+
+/-- `m[i] = (k, v)` for a valid index on a map with pairwise different keys: either `k` is in use at
+another index `j` — a runtime error, the map is untouched — or entry `i` is replaced in place.
+It never panics. -/
+theorem indexAssignChecked_total {m : Val → Val → Bool} (hm : KeyPER m) (i : Nat) (k : Val) (v : β)
+    (es : List (Val × β)) (hi : i < es.length) (hd : Distinct m (keys es)) :
+    (∃ j, j ≠ i ∧ indexAssignChecked m m i k v es = .keyInUse j ∧ replaceOk m i k (keys es) = false) ∨
+    (indexAssignChecked m m i k v es = .replaced (replaceAt i k v es) ∧ replaceOk m i k (keys es) = true) := by
+  have hik : i < (keys es).length := by simpa [keys] using hi
+  unfold indexAssignChecked
+  cases hf : findIdx m k es with
+  | none =>
+    right
+    have hno := findIdx_none m k es hf
+    have hok : replaceOk m i k (keys es) = true := by
+      simp only [replaceOk, Bool.and_eq_true, decide_eq_true_eq, List.all_eq_true, Bool.not_eq_true']
+      refine ⟨hik, ?_⟩
+      intro x hx
+      have hx' : x ∈ keys es := List.mem_of_mem_eraseIdx hx
+      obtain ⟨e, he, rfl⟩ := List.mem_map.mp hx'
+      exact hno e he
+    rw [indexAssign_ok m i k v es hok]
+    exact ⟨rfl, hok⟩
+  | some j =>
+    obtain ⟨hj, hmj⟩ := findIdx_some m k es j hf
+    by_cases hji : j = i
+    · right
+      subst hji
+      have hkey : m k (keys es)[j] = true := by simpa [keys] using hmj
+      have hok : replaceOk m j k (keys es) = true := by
+        simp only [replaceOk, Bool.and_eq_true, decide_eq_true_eq, List.all_eq_true, Bool.not_eq_true']
+        exact ⟨hik, distinct_other_no_match hm k (keys es) j hik hd hkey⟩
+      rw [indexAssign_ok m j k v es hok]
+      exact ⟨by simp, hok⟩
+    · left
+      refine ⟨j, hji, by simp [hji], ?_⟩
+      have hmem : (es[j]).1 ∈ (keys es).eraseIdx i := by
+        rw [List.mem_eraseIdx_iff_getElem]
+        exact ⟨j, by simpa [keys] using hj, hji, by simp [keys]⟩
+      cases hr : replaceOk m i k (keys es) with
+      | false => rfl
+      | true =>
+        simp only [replaceOk, Bool.and_eq_true, decide_eq_true_eq, List.all_eq_true, Bool.not_eq_true'] at hr
+        have := hr.2 _ hmem
+        rw [hmj] at this
+        exact absurd this (by simp)
+
 end OMap
 end Equal
 end KotoVerif
